@@ -217,6 +217,13 @@ pub fn gen_c09(seed: u64, thorough: bool) {
                     push_f(&mut line, su);
                     push_f(&mut line, eu);
                     lines.push(format!("{} {} {}", su as u64, eu as u64, corpus[l]));
+                } else if rng.chance(0.5) {
+                    // HTS-style: an unknown time is written as -1 (kept per field)
+                    let su = if *s >= 0.0 { (s * per_frame).round() } else { -1.0 };
+                    let eu = if *e >= 0.0 { (e * per_frame).round() } else { -1.0 };
+                    push_f(&mut line, su);
+                    push_f(&mut line, eu);
+                    lines.push(format!("{} {} {}", su as i64, eu as i64, corpus[l]));
                 } else {
                     push_f(&mut line, -1.0);
                     push_f(&mut line, -1.0);
